@@ -217,12 +217,14 @@ def mon_c02(ctx, rec):
     supply = P + irr_eff
     if not (abs((infl + ro) - supply) <= 1e-9 * max(1.0, abs(supply))):
         out.append(("C02:partition", f"day t={rec.t}: rain {P} + effective irrigation {irr_eff} = {supply} but Infl {infl} + Runoff {ro} = {infl + ro}"))
-    if ro < 0:
+    # signs are decided beyond floating-point rounding of the day's own amounts (Infl is reported as supply minus runoff)
+    noise = 1e-9 * max(1.0, abs(supply) + rec.ss0)
+    if ro < -noise:
         out.append(("C02:runoff-negative", f"day t={rec.t}: Runoff={ro}"))
     if ro > supply + rec.ss0 + 1e-9 * max(1.0, supply + rec.ss0):
         out.append(("C02:runoff-exceeds-supply", f"day t={rec.t}: Runoff={ro} > rain+irrigation+ponded = {supply + rec.ss0}"))
     mg = ctx.mgmt(rec)
-    if infl < 0:
+    if infl < -noise:
         # ponded water may be released as runoff when the bunds that held it are gone: removed altogether, or replaced by
         # lower ones (in-season bunds 0.3 m, fallow bunds 0.05 m) - then only the water standing above the new bund height
         released = rec.ss0 if not mg["has_bunds"] else max(0.0, rec.ss0 - mg["z_bund_mm"])
